@@ -19,7 +19,7 @@ pub fn property() -> Property {
     Property {
         id: "C14",
         level: "exploration",
-        rule: "Exhaustive matrix of real TLS handshakes against local openssl servers (threads on 127.0.0.1; names mapped with the resolver hook H2) presenting fixture certificates: {leaf chained to the private CA, self-signed, unknown issuer, expired CA-signed leaf, impostor chain = self-signed leaf followed by the genuine certificate and its CA} x {URL host matches the certificate name, differs} x accept_invalid_certs {off,on} x accept_invalid_hostnames {off,on} x private CA added as root {no,yes} x path {direct https, CONNECT through a real loopback proxy thread, https proxy (TLS to the proxy AND nested TLS to the origin; the proxy's certificate is varied separately)} x where the flags/root were set {session, request, clone of the session, session/request with every flag first switched on and then set to its final value, unrelated setters on session and request while the settings are shared with live requests, and a SIBLING request / the ORIGINAL session that must stay unaffected}; plus (rustls flavour) 'foreign key' cells - genuine chain, handshake signed with another key: rejected whatever the host-name waiver says -, 'validity window' cells (certificates minted at run time that expired 90 s / 1 h / 1 d ago or become valid in 2 min / 1 h / 1 d are rejected, one valid from yesterday to tomorrow is accepted), 'sibling roots' (two sessions/requests that each added a different root, handshaking one after the other in both orders, keep their own anchors) and 'pinned leaf' cells: the self-signed certificate the server presents (valid, or expired) is itself added as a root - validity period and name must still be enforced (whether a valid pinned leaf is anchored is backend-specific: recorded, not judged). 'caller-host-header' cells: a Host header supplied by the caller (request or session, with/without :443) naming another host - the URL's host stays the name that is checked, in both directions; 'refusing-proxy' cells: a loopback proxy that refuses the CONNECT (400/403/404/405/407/501/502/503) and answers any other request with 200 in clear - no response may come back and no byte of the https request may reach the proxy outside a tunnel, also when the https URL is reached through a 307. Third flavour `rustlsnative`: the library built with tls-rustls-native-roots and run with an EMPTY platform trust store (SSL_CERT_FILE -> empty file). Oracle: truth table ok = (anchored or certs_off) and (in validity or certs_off) and (name ok or names_off or certs_off), evaluated with the flags of THAT request; safety (success => ok) is always judged, liveness (ok => success) for the CA->leaf topology on DNS names and whenever certs_off waives everything; the error kind of rejections is recorded; a rejected handshake must not have delivered the request to the server. Non-trivial: every cell; distinct = hash(cell).",
+        rule: "Exhaustive matrix of real TLS handshakes against local openssl servers (threads on 127.0.0.1; names mapped with the resolver hook H2) presenting fixture certificates: {leaf chained to the private CA, self-signed, unknown issuer, expired CA-signed leaf, impostor chain = self-signed leaf followed by the genuine certificate and its CA} x {URL host matches the certificate name, differs} x accept_invalid_certs {off,on} x accept_invalid_hostnames {off,on} x private CA added as root {no,yes} x path {direct https, CONNECT through a real loopback proxy thread, https proxy (TLS to the proxy AND nested TLS to the origin; the proxy's certificate is varied separately)} x where the flags/root were set {session, request, clone of the session, session/request with every flag first switched on and then set to its final value, unrelated setters on session and request while the settings are shared with live requests, and a SIBLING request / the ORIGINAL session that must stay unaffected}; plus (rustls flavour) 'foreign key' cells - genuine chain, handshake signed with another key: rejected whatever the host-name waiver says -, 'validity window' cells (certificates minted at run time that expired 90 s / 1 h / 1 d ago or become valid in 2 min / 1 h / 1 d are rejected, one valid from yesterday to tomorrow is accepted), 'sibling roots' (two sessions/requests that each added a different root, handshaking one after the other in both orders, keep their own anchors) and 'pinned leaf' cells: the self-signed certificate the server presents (valid, or expired) is itself added as a root - validity period and name must still be enforced (whether a valid pinned leaf is anchored is backend-specific: recorded, not judged). 'caller-host-header' cells: a Host header supplied by the caller (request or session, with/without :443) naming another host - the URL's host stays the name that is checked, in both directions; 'refusing-proxy' cells: a loopback proxy that refuses the CONNECT (400/403/404/405/407/501/502/503) and answers any other request with 200 in clear - no response may come back and no byte of the https request may reach the proxy outside a tunnel, also when the https URL is reached through a 307. 'lookalike-names' cells: a CA-signed certificate without subjectAltName whose subject merely contains the host name, and a CA-signed certificate for another name presented for hosts that are not proper DNS names (`my-bucket-.good.test`, `-x.good.test`, a 64-character label): no match without a waiver. Third flavour `rustlsnative`: the library built with tls-rustls-native-roots and run with an EMPTY platform trust store (SSL_CERT_FILE -> empty file). Oracle: truth table ok = (anchored or certs_off) and (in validity or certs_off) and (name ok or names_off or certs_off), evaluated with the flags of THAT request; safety (success => ok) is always judged, liveness (ok => success) for the CA->leaf topology on DNS names and whenever certs_off waives everything; the error kind of rejections is recorded; a rejected handshake must not have delivered the request to the server. Non-trivial: every cell; distinct = hash(cell).",
         assumptions: &["OpenSSL (server side and native-tls client side) / rustls implement the checks they are asked to perform; fixtures are what their names say (verified with `openssl verify` when generated)", "the system trust store does not contain the private CA (cells 'root not added' would reveal it)"],
         min_nontrivial: |t| t.pick(300, 1_000),
         gens,
@@ -45,6 +45,7 @@ fn gens(tier: Tier) -> Vec<Gen> {
         Gen { name: "ip-literal-hosts", count: (2 * 2 * 2 * 2 * 2 * 2) as u64, exhaustive: true, run: run_ip_literal },
         #[cfg(feature = "rustls-any")]
         Gen { name: "foreign-key", count: (2 * 2 * 2 * 2) as u64, exhaustive: true, run: run_foreign_key },
+        Gen { name: "lookalike-names", count: (4 * 2 * 2 * 2) as u64, exhaustive: true, run: run_lookalike_names },
         Gen { name: "caller-host-header", count: (2 * 2 * 2 * 2) as u64, exhaustive: true, run: run_caller_host },
         Gen { name: "refusing-proxy", count: (REFUSALS.len() * 2 * 2) as u64, exhaustive: true, run: run_refusing_proxy },
         Gen { name: "validity-window", count: (7 * 2 * 2) as u64, exhaustive: true, run: run_validity_window },
@@ -200,6 +201,9 @@ fn outcome(res: Result<attohttpc::Response, attohttpc::Error>) -> Outcome {
 fn judge(ctx: &mut Ctx, what: &str, expected_ok: bool, liveness: bool, out: &Outcome, servers_saw_request: bool, descr: &dyn Fn() -> String) {
     if out.ok && !expected_ok {
         ctx.violation(format!("unauthenticated-peer-accepted:{what}"), format!("the exchange succeeded although the truth table says the peer must be rejected; {}", descr()));
+    } else if !out.ok && expected_ok && liveness && crate::framework::memcheck_mode() {
+        // (under valgrind the loopback peers run into their own time limits: not a verdict)
+        ctx.inconclusive(format!("memcheck pass: an acceptable peer was not reached ({}); {}", out.error, descr()));
     } else if !out.ok && expected_ok && liveness {
         ctx.violation(format!("acceptable-peer-rejected:{what}"), format!("the exchange failed ({}) although every broken aspect is waived / nothing is broken; {}", out.error, descr()));
     } else if !out.ok && !expected_ok {
@@ -462,6 +466,60 @@ fn run_ip_literal(ctx: &mut Ctx, _rng: &mut Rng, index: u64) {
     judge(ctx, "sibling-or-original", false, false, &out_u, saw_u, &|| descr("request created before the flags/root were set: defaults apply"));
     ctx.count("path_ip_literal_host", 1);
     ctx.nontrivial(format!("ipl{index}").as_bytes());
+}
+
+/// names that merely LOOK related: (0) a CA-signed certificate without subjectAltName whose subject
+/// contains the URL's host as a substring (O=good.test Hosting Ltd, CN=good.test.attacker.example)
+/// presented for https://good.test; (1..3) a CA-signed certificate for proxy.test presented for hosts the
+/// URL parser accepts but that are not proper DNS names (a label ending or starting with a hyphen,
+/// a label of 64 characters): in none of them does the certificate match the host, so success needs
+/// the host-name waiver (or the general one). Safety only (a backend may refuse such names outright).
+fn run_lookalike_names(ctx: &mut Ctx, _rng: &mut Rng, index: u64) {
+    let mut i = index as usize;
+    let kind = i % 4;
+    i /= 4;
+    let via_proxy = i % 2 == 1;
+    i /= 2;
+    let names_off = i % 2 == 1;
+    i /= 2;
+    let certs_off = i % 2 == 1;
+    let long_label = format!("{}.good.test", "l".repeat(64));
+    let (cert, host): (&'static str, String) = match kind {
+        0 => ("nosan", "good.test".to_owned()),
+        // (the certificate `proxy` names proxy.test only - `good` would not do: its wildcard
+        //  *.good.test covers any single left-most label for OpenSSL, hyphens included)
+        1 => ("proxy", "my-bucket-.good.test".to_owned()),
+        2 => ("proxy", "-x.good.test".to_owned()),
+        _ => ("proxy", long_label),
+    };
+    let url = format!("https://{host}/c14");
+    if Url::parse(&url).is_err() {
+        ctx.gray();
+        return;
+    }
+    let srv = if via_proxy { connect_proxy(cert) } else { origin_server(cert) };
+    let mut sess = Session::new();
+    sess.connect_timeout(std::time::Duration::from_secs(5));
+    sess.read_timeout(std::time::Duration::from_secs(5));
+    sess.add_root_certificate(tlsfix::load_cert("ca"));
+    sess.danger_accept_invalid_hostnames(names_off);
+    sess.danger_accept_invalid_certs(certs_off);
+    if via_proxy {
+        sess.proxy_settings(ProxySettings::builder().https_proxy(Url::parse(&format!("http://127.0.0.1:{}", srv.port)).unwrap()).build());
+    } else {
+        set_resolver_override(&host, Some(vec![SocketAddr::from(([127, 0, 0, 1], srv.port))]));
+    }
+    let out = outcome(sess.post(&url).text("c14 body").send());
+    if !via_proxy {
+        set_resolver_override(&host, None);
+    }
+    let saw = saw_request(&srv.finish());
+    let expected = names_off || certs_off;
+    let descr = || format!("{}: URL {url}; the server presents the fixture certificate `{cert}` ({}), the CA is added as a root, accept_invalid_hostnames={names_off} accept_invalid_certs={certs_off}", if via_proxy { "CONNECT via loopback proxy" } else { "direct" }, if cert == "nosan" { "no subjectAltName; subject O=good.test Hosting Ltd, CN=good.test.attacker.example" } else { "valid for proxy.test only" });
+    judge(ctx, "lookalike-name", expected, false, &out, saw, &descr);
+    ctx.count("lookalike_name_cells", 1);
+    ctx.nontrivial(format!("lookalike{index}").as_bytes());
+    ctx.sample(|| json!({"path": "lookalike-names", "url": url, "cert": cert, "names_off": names_off, "certs_off": certs_off, "outcome": out.error}));
 }
 
 /// "the host being contacted" is the URL's host: a Host header supplied by the caller (on the
